@@ -12,8 +12,12 @@ for f in sys.argv[2:]:
         for k in json.loads(txt)['coverage']['known_findings']:
             fired.add(k['signature'])
     else:
-        for m in re.finditer(r'^KNOWN-FINDING: property=%s .* \[(.*)\] \(\d+ cases' % ID, txt, re.M):
-            fired.add(m.group(1))
+        # signatures may themselves contain brackets: look each known signature up literally
+        for line in open('/verif/known_findings.jsonl'):
+            if line.startswith('{'):
+                k = json.loads(line)
+                if k['property'] == ID and re.search(r'^KNOWN-FINDING: property=%s .* \[%s\] \(\d+ cases' % (ID, re.escape(k['signature'])), txt, re.M):
+                    fired.add(k['signature'])
 out, dropped = [], 0
 for line in open('/verif/known_findings.jsonl'):
     s = line.strip()
